@@ -103,6 +103,7 @@ def run_pairs(prop, tier, seed, work, res, defs, pairs, per_pair, two_hop=False,
         defs["ZBadShare"]["invalid"] = True
         scen.append({"sid": "C03-rejected-first", "prop": prop, "vals": [], "tags": ["rejected-first"], "dkey": "rejected-first",
                      "steps": [{"op": "reject", "ty": "ZBadShare", "entry": e, "arg": "ptr", "class": "interlude", "repeat": 1} for e in ("decode", "encode")]})
+    last_msg = {}
     for cid, (w, t, label, v, n) in plans.items():
         m = msgs[cid][0]
         dest = ["fresh", "zero", "val"][n % 3]
@@ -114,6 +115,15 @@ def run_pairs(prop, tier, seed, work, res, defs, pairs, per_pair, two_hop=False,
             tags = checks_codec.struct_tags(w, v, defs)
         scen.append(decode_scenario(prop, cid, t, m, dest, defs, w=w, wv=v, label=label, two_hop=th, extra_tags=tags,
                                     gc=(not th and (n % 4 == 0 or "-big" in cid))))
+        other = last_msg.get(t)
+        last_msg[t] = m
+        if prop == "C03" and other is not None and other != m and n % 5 == 0 and len(m) > 12:
+            # a kept result, a decode that fails half way, further decodes of OTHER messages: the kept result is what it was
+            seq = [{"op": "decode", "ty": t, "in": m, "dest": "fresh"}, {"op": "decode", "ty": t, "in": m[: len(m) * 2 // 3], "dest": "fresh"},
+                   {"op": "decode", "ty": t, "in": other, "dest": "fresh"}, {"op": "decode", "ty": t, "in": other[: len(other) // 2], "dest": "fresh"},
+                   {"op": "decode", "ty": t, "in": other, "dest": "zero"}, {"op": "recheck", "obj": 0, "after": "failed-and-further-decodes"},
+                   {"op": "recheck", "obj": 2, "after": "failed-and-further-decodes"}]
+            scen.append({"sid": cid + "-seq", "prop": prop, "vals": [], "steps": seq, "tags": [label, "kept-across-failure"], "dkey": cid + "-seq"})
         if prop == "C03" and label.startswith("same") and dest != "val":
             # the unchanged schema: every value also over a fully populated destination (nothing of the old
             # nested values may remain where the message carries a sparser one)
